@@ -358,3 +358,104 @@ class UidValidity(Harness):
         if None in (first, second, third) or not (second > first) or third != second:
             return {"observed": [first, second, third], "clause": "recreated mailbox gets a larger UIDVALIDITY; otherwise it does not change"}
         return None
+
+
+class ViewReplay(Harness):
+    """Replaying the EXISTS/EXPUNGE a session received always gives a legal view that converges to the server list (C01)."""
+
+    scope = "2 sessions on one 5-message mailbox; scripted histories mixing STORE \\Deleted, EXPUNGE by the other session, external deliveries, NOOP / FETCH by the observer; all orders of (expunge, delivery, observer command)"
+    exhaustive = False
+
+    def inputs(self, tier, seed):
+        import itertools
+
+        steps = ["B:expunge1", "deliver", "A:noop", "B:expunge-last", "A:fetch1", "B:append"]
+        n = 3 if tier == "quick" else 4
+        for k in range(1, n + 1):
+            for hist in itertools.permutations(steps, k):
+                yield {"history": list(hist)}
+
+    def check(self, inp):
+        import re
+
+        from .mboxops import deliver
+
+        async def go():
+            async with World({"inbox": 5}) as w:
+                a, b = w.session("A"), w.session("B")
+                views = {}
+                log = []
+
+                def replay(name, lines, in_seq_cmd=False):
+                    v = views[name]
+                    for ln in lines:
+                        m = re.match(r"\* (\d+) (EXISTS|EXPUNGE|FETCH)", ln)
+                        if not m:
+                            continue
+                        n, what = int(m.group(1)), m.group(2)
+                        if what == "EXISTS":
+                            if n < v["count"]:
+                                return f"{name}: EXISTS {n} shrinks the view of {v['count']}"
+                            v["count"] = n
+                        elif what == "EXPUNGE":
+                            if not (1 <= n <= v["count"]):
+                                return f"{name}: EXPUNGE {n} outside the view of {v['count']}"
+                            if in_seq_cmd:
+                                return f"{name}: EXPUNGE {n} sent during a non-UID FETCH/STORE/SEARCH"
+                            v["count"] -= 1
+                        elif what == "FETCH" and not (1 <= n <= v["count"]):
+                            return f"{name}: FETCH {n} outside the view of {v['count']}"
+                    return None
+
+                for s in (a, b):
+                    views[s.proxy.name] = {"count": 0}
+                    err = replay(s.proxy.name, await s.cmd("SELECT inbox"))
+                    if err:
+                        return err
+                for step in inp["history"]:
+                    who, _, what = step.partition(":")
+                    if step == "deliver":
+                        deliver(w.maildir, "inbox", 1)
+                        mbox = a.h.mbox
+                        async with mbox.mailbox.lock_folder():
+                            await mbox.check_new_msgs_and_flags(optional=False)
+                        out = {"A": a.proxy.take(), "B": b.proxy.take()}
+                        for nm, lines in out.items():
+                            err = replay(nm, lines)
+                            if err:
+                                return f"after {step}: {err}"
+                        continue
+                    s = a if who == "A" else b
+                    if what == "expunge1":
+                        cmds = ["STORE 1 +FLAGS.SILENT (\\Deleted)", "EXPUNGE"]
+                    elif what == "expunge-last":
+                        cmds = [f"STORE {views[s.proxy.name]['count']} +FLAGS.SILENT (\\Deleted)", "EXPUNGE"]
+                    elif what == "noop":
+                        cmds = ["NOOP"]
+                    elif what == "fetch1":
+                        cmds = ["FETCH 1 (UID)"]
+                    else:
+                        cmds = ["APPEND inbox {20}\r\nSubject: x\r\n\r\nbody\r\n\r\n"]
+                    for c in cmds:
+                        if views[s.proxy.name]["count"] == 0 and c.startswith(("STORE", "FETCH")):
+                            continue
+                        lines = await s.cmd(c)
+                        other = b if s is a else a
+                        err = replay(s.proxy.name, lines, in_seq_cmd=c.startswith("FETCH"))
+                        err = err or replay(other.proxy.name, other.proxy.take())
+                        if err:
+                            return f"during {step} ({c}): {err}"
+                # synchronisation point: after NOOP the view equals the server list
+                for s in (a, b):
+                    err = replay(s.proxy.name, await s.cmd("NOOP"))
+                    if err:
+                        return f"final NOOP: {err}"
+                    n = len(a.h.mbox.uids)
+                    if views[s.proxy.name]["count"] != n:
+                        return f"{s.proxy.name}: after NOOP the replayed view has {views[s.proxy.name]['count']} messages, the server {n}"
+                return None
+
+        err = run(go(), timeout=120)
+        if err:
+            return {"observed": err, "clause": "legal view at every step; view == server list after NOOP"}
+        return None
